@@ -24,7 +24,10 @@ caught=0; total=0
 for id in "$@"; do
   total=$((total+1))
   out=$(cd $M/verif && CARGO_TARGET_DIR=$M/target VERIF_REPO=$M/repo ./check $id --tier ${TIER:-quick} 2>&1)
-  echo "$out" | grep -E "^\[|VIOLATION|KNOWN" | head -12
+  # status lines of the check and its sub-checks (KNOWN-FINDING lines shortened), then EVERY VIOLATION line: callers
+  # classify the run by the VIOLATION lines, so none of them may fall victim to a line limit
+  echo "$out" | grep -E "^\[|^KNOWN" | cut -c1-400 | head -40
+  echo "$out" | grep -E "^VIOLATION"
   # VIOLATION lines always carry the PARENT property id (first three characters of a sub-check id)
   if echo "$out" | grep -q "^VIOLATION property=${id:0:3} "; then caught=$((caught+1)); for r in $(echo "$out" | grep -o "replay=[^ ]*" | head -2); do echo "--- ${r#replay=}"; head -12 "${r#replay=}"; done; fi
 done
